@@ -427,6 +427,20 @@ def check(ctx):
         ctx.count(("cli", cmd, spec), True)
         if code != 2:
             ctx.violation("invalid specification does not exit with status 2", {"cmd": "-" + cmd, "spec": spec, "exit": str(code)})
+        # the same specification for the second read (-A/-G/-B) of a paired-end run is refused in the same way
+        sys.stdout, sys.stderr = io.StringIO(), io.StringIO()
+        code = 0
+        try:
+            cli.main(["-" + cmd.upper(), spec, "-o", os.path.join(scratch, "o.1.fastq"), "-p", os.path.join(scratch, "o.2.fastq"), inp, inp])
+        except SystemExit as e:
+            code = e.code
+        except Exception as e:  # noqa
+            code = "exception %s" % type(e).__name__
+        finally:
+            sys.stdout, sys.stderr = old
+        ctx.count(("cli", cmd.upper(), spec), True)
+        if code != 2:
+            ctx.violation("invalid specification for the second read does not exit with status 2", {"cmd": "-" + cmd.upper(), "spec": spec, "exit": str(code)})
     # the option letters: -a/-g/-b and, for the second read, -A/-G/-B select 3' / 5' / anywhere
     try:
         parser = cli.get_argument_parser()
